@@ -10,6 +10,7 @@ import (
 	"fmt"
 	"io"
 	"log"
+	"os"
 	"sort"
 	"sync"
 	"testing"
@@ -424,6 +425,15 @@ func runBubble(t *testing.T, f func() string) (failure string) {
 		failure = f()
 	})
 	return failure
+}
+
+// lockLeaked reports a leaked IdleInvoker lock and ends the process: the
+// bubble can never drain (a goroutine blocked on the leaked mutex is not
+// "durably blocked"), so the usual path through rt.Fatalf and shrinking
+// would hang until the wall-clock guard and be reported as inconclusive.
+func lockLeaked(script any) {
+	fmt.Printf("VERIF-VIOLATION property=C14/C12: the IdleInvoker lock is still held at quiescence: a call returned without releasing it; executed script=%+v\n", script)
+	os.Exit(1)
 }
 
 func appendFailure(a, b string) string {
